@@ -300,6 +300,10 @@ def call_np(ip, name, args, kwargs, lineno):
         if len(vals) == 1:
             n = vals[0]
             c.check("%s:arange.nonneg@L%s" % (fn, lineno), I(n) >= 0, "safety", lineno) if is_sym(n) else None
+            dt = kwargs.get("dtype")
+            if isinstance(dt, tuple) and len(dt) == 2 and dt[0] == "np" and (dt[1] in NARROW or dt[1] == "uint8") and is_sym(n):
+                hi = 256 if dt[1] == "uint8" else NARROW[dt[1]][1]
+                c.check("%s:arange.fits.%s@L%s" % (fn, dt[1], lineno), I(n) <= hi, "safety", lineno, "np.arange(n, dtype=%s): every value fits the type" % dt[1])
             return SArr.fresh(n if not is_sym(n) else n, lambda i: I(i))
         if len(vals) == 2:
             lo, hi = vals
@@ -359,6 +363,12 @@ def call_np(ip, name, args, kwargs, lineno):
     if name == "cumsum":
         a = as_arr(ip, args[0])
         r = M.cumsum(a, lineno)
+        dt = kwargs.get("dtype")
+        if isinstance(dt, tuple) and len(dt) == 2 and dt[0] == "np" and dt[1] in NARROW:
+            lo, hi = NARROW[dt[1]]
+            fr = r.snapshot()
+            c.oblige("%s:cumsum.fits.%s@L%s" % (fn, dt[1], lineno), Forall(lambda k: Implies(in_range(k, r.length), And(I(fr(k)) >= lo, I(fr(k)) < hi))), "safety", lineno,
+                     "np.cumsum(..., dtype=%s): every partial sum fits the type" % dt[1])
         if kwargs.get("out") is not None:
             out = kwargs["out"]
             ip.store_view(out, r.snapshot(), lineno)
@@ -512,6 +522,27 @@ def call_np(ip, name, args, kwargs, lineno):
         c.assume(Forall(lambda j: Implies(in_range(j, n), And(in_range(inv(j), n), p(inv(j)) == j)), triggers=[inv], name="argsort.onto"))
         r = SArr.fresh(n, lambda i: p(I(i)))
         r.argsort_of = (p, inv, fa, n)
+        return r
+    if name == "lexsort" and isinstance(args[0], (list, tuple)) and 1 <= len(args[0]) <= 4 and all(isinstance(k, SArr) for k in args[0]):
+        # PARTIAL contract: a permutation p of 0..n-1 (bijection via an inverse Skolem function) such that consecutive rows are in non-decreasing
+        # lexicographic order of (keys[-1], ..., keys[0]) - the LAST key is the primary one (NumPy).  Tie order (stability) is not specified.
+        M.use("np.lexsort: a lexicographically sorting permutation, last key primary (PARTIAL: tie order unspecified)")
+        keys = list(args[0])
+        n = keys[0].length
+        for k in keys[1:]:
+            M.same_len(n, k.length, "lexsort.keys", lineno)
+        fs = [k.snapshot() for k in reversed(keys)]           # primary first
+        p, inv = c.fresh_fun("lexsort"), c.fresh_fun("lexsort_inv")
+
+        def leq(a, b):
+            r = z3.BoolVal(True)
+            for f in reversed(fs):
+                r = Or(I(f(a)) < I(f(b)), And(I(f(a)) == I(f(b)), r))
+            return r
+        c.assume(Forall(lambda i: Implies(in_range(i, n), And(in_range(p(i), n), inv(p(i)) == i, Implies(I(i) + 1 < I(n), leq(p(i), p(I(i) + 1))))), triggers=[p], name="lexsort.perm"))
+        c.assume(Forall(lambda j: Implies(in_range(j, n), And(in_range(inv(j), n), p(inv(j)) == j)), triggers=[inv], name="lexsort.onto"))
+        r = SArr.fresh(n, lambda i: p(I(i)))
+        r.argsort_of = (p, inv, fs[0], n)
         return r
     if name == "lexsort" or name == "argsort" or name == "sort":
         raise Unsupported("np.%s (partial contract only; bounded)" % name)
